@@ -10,6 +10,7 @@
   tools/seeded.py run <id> [<check> ...] [--tier quick]
         applies seeded/<id>/patch.diff to /repo's working tree, runs the given checks (default: the property's own),
         records exit status and VIOLATION lines in meta.json["runs"], and ALWAYS restores /repo (git checkout -- .).
+  tools/seeded.py runwt <id> [<check> ...]   the same in a scratch worktree (VERIF_REPO), usable in parallel
   tools/seeded.py table      prints the detection matrix (markdown)
 """
 import json
@@ -118,6 +119,40 @@ def run(sid, checks, tier="quick"):
     return 0
 
 
+def runwt(sid, checks, tier="quick"):
+    """Like run(), but in a scratch worktree of /repo's HEAD (VERIF_REPO=<worktree>), so several changes can be tried at once.
+    A miss seen here is re-run with run() on /repo itself before it is believed (load can trip a check's wall-clock caps)."""
+    d = os.path.join(SEEDED, sid)
+    meta = json.load(open(os.path.join(d, "meta.json")))
+    if not checks:
+        checks = [meta["breaks_property"]]
+    wt = tempfile.mkdtemp(prefix="seedrun_", dir="/tmp")
+    os.rmdir(wt)
+    try:
+        assert sh(["git", "-C", REPO, "worktree", "add", "-q", "--detach", wt, "HEAD"]).returncode == 0
+        ap = sh(["git", "-C", wt, "apply", os.path.join(d, "patch.diff")])
+        if ap.returncode != 0:
+            print("patch does not apply to /repo HEAD:", ap.stderr)
+            return 2
+        for c in checks:
+            t0 = time.time()
+            r = sh(["./check", c, "--tier", tier], cwd=VERIF, env=dict(os.environ, VERIF_REPO=wt))
+            viol = [l for l in r.stdout.splitlines() if l.startswith("VIOLATION")]
+            clauses = sorted({l.split("clause=")[1].split(" ")[0] for l in r.stdout.splitlines() if l.strip().startswith("clause=")})
+            rec = {"check": c, "tier": tier, "exit": r.returncode, "violations": len(viol), "clauses": clauses[:12],
+                   "wall_s": round(time.time() - t0, 1), "where": "scratch worktree via VERIF_REPO",
+                   "repo_head": sh(["git", "-C", REPO, "rev-parse", "--short", "HEAD"]).stdout.strip()}
+            if r.returncode == 2:
+                rec["harness_error"] = [l for l in r.stdout.splitlines() if "HARNESS-ERROR" in l][:1]
+            meta["runs"] = [x for x in meta["runs"] if not (x["check"] == c and x["tier"] == tier)] + [rec]
+            print(sid, c, tier, "exit", r.returncode, "violations", len(viol), clauses[:6], "%.0fs" % (time.time() - t0))
+    finally:
+        sh(["git", "-C", REPO, "worktree", "remove", "--force", wt])
+        shutil.rmtree(wt, ignore_errors=True)
+        json.dump(meta, open(os.path.join(d, "meta.json"), "w"), indent=1)
+    return 0
+
+
 def table():
     rows = []
     for sid in sorted(os.listdir(SEEDED)):
@@ -155,11 +190,11 @@ if __name__ == "__main__":
         if "--tests" in a:
             tests = a[a.index("--tests") + 1]
         sys.exit(confirm(a[1], a[2], a[3], tests, preserving="--preserving" in a))
-    if a[0] == "run":
+    if a[0] in ("run", "runwt"):
         tier = "quick"
         if "--tier" in a:
             tier = a[a.index("--tier") + 1]
             del a[a.index("--tier"):a.index("--tier") + 2]
-        sys.exit(run(a[1], a[2:], tier))
+        sys.exit((run if a[0] == "run" else runwt)(a[1], a[2:], tier))
     if a[0] == "table":
         table()
